@@ -29,6 +29,9 @@ REQUIRED = {
     "C06": ["free-worker-and-active-task", "idle-but-task-cannot-accept", "must-finish"],
     "C07": ["charged", "absence-step"],
     "C10": ["project-absence-step", "worker-absence", "auto-at-absence"],
+    "C12": ["pert-at-later-step", "unit:second-update"],
+    "C13": ["two-components-share-workplace", "finished-component-released", "entered-workplace-with-inputs", "moved-between-workplaces", "facility-used"],
+    "C14": ["component-without-task", "component-with-two-tasks"],
 }
 
 KN = {0: "FS", 1: "SS", 2: "FF", 3: "SF"}
@@ -282,6 +285,47 @@ def p_maxtime(thorough=False, timeout=150):
     return obs
 
 
+def p_product(kind, thorough=False, H=8, timeout=150):
+    """Component placement.  kind: F1 flat, one task per component; F2 flat, two tasks on component 0;
+    N1 one nesting level (component 0 is the parent of component 1); E1 adds a component without task."""
+    obs = []
+    for links in ("none", "0>1"):
+        for wprule in (0, 1):
+            for dep in ("indep", "fs"):
+                for nwp in (1, 2):
+                    if nwp == 1 and links != "none":
+                        continue
+                    if kind in ("F1", "N1", "E1"):
+                        tasks = [{"w": "$w0", "nf": True, "comp": 0}, {"w": "$w1", "nf": True, "comp": 1}]
+                        comps = [{"size": "$z0"}, {"size": "$z1"}]
+                        if kind == "N1":
+                            comps[0]["children"] = [1]
+                        if kind == "E1":
+                            comps.append({"size": 1})
+                        edges = [[0, 1, 0]] if dep == "fs" else []
+                        params = [["w0", 1, 2], ["w1", 1, 2]]
+                    else:
+                        tasks = [{"w": "$w0", "nf": True, "comp": 0}, {"w": "$w1", "nf": True, "comp": 0}, {"w": "$w2", "nf": True, "comp": 1}]
+                        comps = [{"size": "$z0"}, {"size": "$z1"}]
+                        edges = [[0, 2, 0]] if dep == "fs" else []
+                        params = [["w0", 1, 2], ["w1", 1, 2], ["w2", 1, 2]]
+                    nT = len(tasks)
+                    wps = []
+                    for pi in range(nwp):
+                        wps.append({"targets": list(range(nT)), "cap": "$cap%d" % pi,
+                                    "facs": [{"skills": {str(i): ("$fs%d" % pi if i == 0 else 1) for i in range(nT)}}],
+                                    "inputs": ([0] if (links == "0>1" and pi == 1) else [])})
+                    for t in tasks:
+                        t["wps"] = list(range(nwp))
+                        t["wprule"] = wprule
+                    ws = [{"skills": {str(i): 1 for i in range(nT)}, "fskills": {str(f): 1 for f in range(nwp)}} for _ in range(2)]
+                    spec = {"tasks": tasks, "edges": edges, "teams": [_team(ws, list(range(nT)))], "wps": wps, "comps": comps, "run": {"max_time": H}}
+                    pr = params + [["z0", 1, 2], ["z1", 1, 2]] + [["cap%d" % pi, 1, 3] for pi in range(nwp)] + [["fs%d" % pi, 0, 2] for pi in range(nwp)]
+                    obs.append({"name": "prod/%s/wps=%d/links=%s/wprule=%d/%s" % (kind, nwp, links, wprule, dep), "harness": "sim",
+                                "cube": {"spec": spec}, "params": pr, "timeout": timeout})
+    return obs
+
+
 def obligations_for(prop, tier):
     import os
 
@@ -316,6 +360,23 @@ def _obligations_for(prop, tier):
         if prop == "C02":
             obs += p_progress_auto(wmax=4 if thorough else 3, H=12 if thorough else 8, timeout=600 if thorough else 150)
             obs += p_absence(wmax=3 if thorough else 2, H=12 if thorough else 8, timeout=900 if thorough else 200)
+        return obs
+    if prop == "C12":
+        obs = wf_cubes(3, ["shared2", "private"], 3, kinds=(0,), name="fs", timeout=600 if thorough else 150, H=12)
+        four = [es for es in all_edge_sets(4)]
+        if not thorough:
+            four = [es for k, es in enumerate(four) if k % 4 == 1]
+        obs += wf_cubes(4, ["shared2"], 2 if not thorough else 3, kinds=(0,), edge_sets=four, name="fs", timeout=900 if thorough else 150, H=14)
+        return obs
+    if prop == "C13":
+        obs = []
+        for kind in ("F1", "F2", "N1"):
+            obs += p_product(kind, thorough, timeout=900 if thorough else 150)
+        return obs
+    if prop == "C14":
+        obs = []
+        for kind in ("F1", "F2", "N1", "E1"):
+            obs += p_product(kind, thorough, timeout=900 if thorough else 150)
         return obs
     if prop == "C05":
         obs = p_feasible(thorough, timeout=900 if thorough else 150) + p_maxtime(thorough, timeout=600 if thorough else 150)
